@@ -3,6 +3,8 @@ import VirtioVerif.Model.Proto
 import VirtioVerif.Model.Layout
 import VirtioVerif.Model.EvQueue
 import VirtioVerif.Model.Console
+import VirtioVerif.Model.EventQueues
 import VirtioVerif.Props.C06
 import VirtioVerif.Lemmas.EvQueue
 import VirtioVerif.Props.C15
+import VirtioVerif.Props.C19Drivers
